@@ -576,38 +576,59 @@ class Scheduler(object):
 
 def _record_accesses(ws, sched):
     """Recording runs of the race-directed sweep: every read and write of an
-    attribute of the connection state (WebSocket.State) during the concurrent
-    phase is logged with the thread and the yield point it happened at.  The
-    State class of this one object is replaced by a logging subclass; the
-    library code is not touched."""
+    attribute of the connection state (WebSocket.State), of its session and
+    of its compression object during the concurrent phase is logged with the
+    thread and the yield point it happened at.  When the concurrent phase
+    starts the class of each of these *instances* is replaced by a logging
+    subclass; the library code is not touched."""
     sched.visits = []
     sched.accesses = []
-    base = type(ws).State
 
-    def _log(name, kind):
+    def _log(tag, name, kind):
         me = sched.current
         if sched.active and me is not None and not name.startswith('__'):
             sched.accesses.append((sched.last_visit.get(me.tid, -1), me.tid,
-                                   name, kind))
+                                   tag + '.' + name, kind))
 
-    class RecState(base):
-        def __getattribute__(self, name):
-            _log(name, 'r')
-            return base.__getattribute__(self, name)
+    def _wrap(obj, tag):
+        base = type(obj)
+        if obj is None or getattr(base, '_verif_rec', False):
+            return
 
-        def __setattr__(self, name, value):
-            _log(name, 'w')
-            base.__setattr__(self, name, value)
+        class Rec(base):
+            _verif_rec = True
 
-    RecState.__name__ = base.__name__
-    RecState.__qualname__ = base.__qualname__
-    ws.State = RecState
-    st = ws.__dict__.get('state')
-    if st is not None and type(st) is base:
+            def __getattribute__(self, name):
+                v = base.__getattribute__(self, name)
+                # fetching a mutable object (zlib context, buffer, list) is
+                # as good as writing: what is done to it is not visible here
+                mut = isinstance(v, (bytearray, list, dict, set)) or \
+                    type(v).__module__ == 'zlib'
+                _log(tag, name, 'w' if mut else 'r')
+                return v
+
+            def __setattr__(self, name, value):
+                _log(tag, name, 'w')
+                base.__setattr__(self, name, value)
+
+        Rec.__name__ = base.__name__
+        Rec.__qualname__ = base.__qualname__
+        Rec.__module__ = base.__module__
         try:
-            st.__class__ = RecState
+            obj.__class__ = Rec
         except TypeError:
             pass
+
+    def hook():
+        st = ws.__dict__.get('state')
+        if st is None:
+            return
+        d = getattr(st, '__dict__', {})
+        _wrap(st, 'state')
+        _wrap(d.get('session'), 'session')
+        _wrap(d.get('compression'), 'deflate')
+
+    sched._rec_hook = hook
 
 
 class TCall(object):
@@ -753,6 +774,8 @@ def run(scen):
                           nth == start_at.get('nth', 0):
                       started[0] = True
                       # the concurrent phase begins: spawn the sender threads
+                      if getattr(sched, '_rec_hook', None) is not None:
+                          sched._rec_hook()
                       sched.active = True
                       for th in senders:
                           sched.start_thread(th)
